@@ -132,12 +132,18 @@ def compare(real_geo, exp_geo, M, what):
             dis.append({"clause": "StartPoint", "detail": "%s: starts at %r, expected %r" % (what, rfp, fp)})
         for i, (r, g) in enumerate(zip(redges, eedges)):
             s, e = mapped(M, (fl(g[1][0]), fl(g[1][1]))), mapped(M, (fl(g[4][0]), fl(g[4][1])))
-            want_kind = "Line" if g[0] == "L" else "Arc"
+            want_kind = {"L": "Line", "Q": "QuadraticBezier", "C": "CubicBezier", "A": "Arc"}[g[0]]
             if type(r).__name__ != want_kind:
                 dis.append({"clause": "EdgeKind", "detail": "%s: edge %d is %s, expected %s" % (what, i, type(r).__name__, want_kind)})
                 continue
             if abs(r.start.x - s[0]) > tol or abs(r.start.y - s[1]) > tol or abs(r.end.x - e[0]) > tol or abs(r.end.y - e[1]) > tol:
                 dis.append({"clause": "EdgeEnds", "detail": "%s: edge %d (%s) runs %r -> %r, expected %r -> %r" % (what, i, want_kind, r.start, r.end, s, e)})
+                continue
+            if g[0] in ("Q", "C"):
+                want = [mapped(M, (fl(c[0]), fl(c[1]))) for c in (g[2], g[3]) if c]
+                got = [r.control] if g[0] == "Q" else [r.control1, r.control2]
+                if any(abs(a.x - b[0]) > tol or abs(a.y - b[1]) > tol for a, b in zip(got, want)):
+                    dis.append({"clause": "EdgeControls", "detail": "%s: edge %d (%s) has controls %r, expected %r" % (what, i, want_kind, got, want)})
                 continue
             if g[0] == "A":
                 rx, ry = fl(g[2][0]), fl(g[2][1])
@@ -148,7 +154,9 @@ def compare(real_geo, exp_geo, M, what):
                     u = mapped(Minv, (p.x, p.y))
                     res = ((u[0] - cx) / rx) ** 2 + ((u[1] - cy) / ry) ** 2
                     # Path(shape.d()) went through the 6-digit radii/rotation of Arc.d() (a C07 finding), not through C06's mechanisms
-                    if abs(res - 1.0) > (2e-4 if "shape.d()" in what else 1e-7):
+                    # (6 significant digits on radii and rotation: the normalised residual moves by about 4e-5 x the aspect ratio)
+                    asp = max(r.rx, r.ry) / max(min(r.rx, r.ry), 1e-300)
+                    if abs(res - 1.0) > (max(2e-4, 4e-5 * asp) if "shape.d()" in what else 1e-7):
                         dis.append({"clause": "ArcOffEllipse", "detail": "%s: edge %d point(%s) = %r is off the specified ellipse (residual %.3g)" % (what, i, t, p, res - 1.0)})
                         break
                     th = math.atan2((u[1] - cy) / ry, (u[0] - cx) / rx)
@@ -258,7 +266,7 @@ def check_case(case):
                     if max(lu) - min(lu) > 1e-5 * max(1.0, max(lu)):
                         dis.append({"clause": "Law:length", "detail": "%s: untransformed lengths of shape, Path(shape), Path(shape.d(transformed=False)) differ: %r" % (name, lu)})
                     lt = [abs(P1).length(error=1e-7), P2.length(error=1e-7)]
-                    if max(lt) - min(lt) > 1e-5 * max(1.0, max(lt)):
+                    if max(lt) - min(lt) > (1e-5 if exact else 1e-4) * max(1.0, max(lt)):
                         dis.append({"clause": "Law:length", "detail": "%s: transformed lengths of abs(Path(shape)) and Path(shape.d()) differ: %r" % (name, lt)})
             except engine.CaseTimeout:
                 raise
